@@ -109,6 +109,7 @@ type Dialer struct {
 	Fail    map[int]bool // dial number -> refuse
 	Dialed  []*Conn
 	Dials   int
+	OnConn  func(n int, c *Conn) // configure the n-th connection before it is handed out
 }
 
 func (d *Dialer) DialContext(ctx context.Context, network, address string) (net.Conn, error) {
@@ -122,6 +123,9 @@ func (d *Dialer) DialContext(ctx context.Context, network, address string) (net.
 		return nil, &net.OpError{Op: "dial", Net: "tcp", Err: ErrDial}
 	}
 	c := d.W.NewConn(d.NewPeer(n))
+	if d.OnConn != nil {
+		d.OnConn(n, c)
+	}
 	d.Dialed = append(d.Dialed, c)
 	return c, nil
 }
